@@ -236,7 +236,8 @@ Definition tag_of_cmd (c : cmd) : list Z :=
 (* the state after the harness has let everything finish (all gates opened, source ended), when Execute then
    returned with every node shut down: what the source emitted reached every root (received or counted as
    discarded there), and every failure of a node with a handler reached that handler likewise
-   (theorems clean_end_exact, counters_meaning).  fin = ((nodes main src) emitted). *)
+   (theorems clean_end_exact, counters_meaning; a difference is an event lost without being counted: C01/C02, C03 and C04).
+   fin = ((nodes main src) emitted). *)
 Definition fin_counts (ns : list tree) (i : nat) : option (Z * Z * Z) :=
   match nth i ns (T []) with
   | T [_; _; _; T [L r; _; _; L f]; L d; _] => Some (r, f, d)
@@ -248,14 +249,14 @@ Definition final_clauses (nt : net) (fin : tree) : list tree :=
   match fin with
   | T [T [T ns; L 1; _]; L em] =>
       flat_map (fun r => match fin_counts ns r with
-                         | Some (rv, _, d) => if rv + d =? em then [] else [clause 3 9 [ofNat r]; clause 1 9 [ofNat r]]
+                         | Some (rv, _, d) => if rv + d =? em then [] else [clause 3 9 [ofNat r]; clause 1 9 [ofNat r]; clause 4 9 [ofNat r]]
                          | None => []
                          end) (roots nt)
       ++ flat_map (fun ix => match nhandler (snd ix) with
                              | Some h =>
                                  match fin_counts ns (fst ix), fin_counts ns h with
                                  | Some (_, f, _), Some (rv, _, d) =>
-                                     if rv + d =? f then [] else [clause 3 9 [ofNat h]; clause 2 9 [ofNat h]]
+                                     if rv + d =? f then [] else [clause 3 9 [ofNat h]; clause 2 9 [ofNat h]; clause 4 9 [ofNat h]]
                                  | _, _ => []
                                  end
                              | None => []
